@@ -169,7 +169,11 @@ def same(exp, got, lang, in_struct=False):
             return gs == "int" and got["bits"] == 32
         return gs == "int" and got["bits"] == exp["bits"] and got["signed"] == exp["signed"]
     if es == "bool":
-        if lang == "kotlin":     # JNA's Boolean is a 4-byte int in fields and return values; Byte is the 1-byte carrier there
+        if lang == "kotlin":
+            # JNA maps a Boolean *argument* to C bool, but a Boolean FIELD of a Structure/Union is a 4-byte int: inside
+            # records (struct mirrors, result/option records) the 1-byte carrier is Byte
+            if in_struct:
+                return gs == "int" and got["bits"] == 8
             return gs == "bool" or (gs == "int" and got["bits"] == 8)
         return gs == "bool"
     if es == "size":
